@@ -103,8 +103,10 @@ def basic_render(
                 node = repr(end)
             line += f"{node}, "
 
-        # remove trailing comma & space
-        line = line[:-2]
+        # remove trailing comma & space (there is none to remove when the
+        # vertex has no neighbors -- the arrow must stay intact)
+        if len(nbs) > 0:
+            line = line[:-2]
         lines.append(line)
 
     return "\n".join(lines)
